@@ -46,8 +46,13 @@ def parse_uncertainty(s):
         # 0.00...0{unc} with the right number of zeros.
         # e.g., 23.0035(12) but not 23(1) or 23.0(1.0) or 23(1.0)
         if '.' not in unc and '.' in value:
-            zeros = len(value.split('.')[1]) - len(unc)
-            unc = "0." + ("0"*zeros) + unc
+            digits = len(value.split('.')[1])
+            zeros = digits - len(unc)
+            if zeros >= 0:
+                unc = "0." + ("0"*zeros) + unc
+            else:
+                # more uncertainty digits than decimals, e.g., 18.7(28)
+                unc = unc[:-digits] + "." + unc[-digits:]
         return float(value), float(unc)
 
     # Plain value with no uncertainty
